@@ -30,6 +30,15 @@ Proof. vm_compute. reflexivity. Qed.
 Lemma ctor_total : forallb (fun k => match init_fields XF dec_norm (cfuel Gen_Bindings.T) Gen_Bindings.T (c_name k) [] with
                                      | Some _ => true | None => false end) Gen_Bindings.T = true.
 Proof. vm_compute. reflexivity. Qed.
+
+(* the factories have the parameters the model gives them, and the only class-level attributes the module creates at
+   run time are the two caches the model knows to be harmless (keyed by class name / global) *)
+Lemma factory_signature_ok : sig_eqb Gen_Members.factory_signature modelled_factory_signature = true.
+Proof. vm_compute. reflexivity. Qed.
+Lemma add_signature_ok : sig_eqb Gen_Members.add_signature modelled_add_signature = true.
+Proof. vm_compute. reflexivity. Qed.
+Lemma class_level_state_ok : set_eqb Gen_Members.class_level_attrs modelled_class_attrs = true.
+Proof. vm_compute. reflexivity. Qed.
 """
 
 ANY6 = ["Annotation", "CellSet", "ForwardTransition", "ReverseTransition", "ReactionScheme", "Region"]
@@ -151,6 +160,55 @@ class ValidGen:
         return None, None
 
 
+def violate_own(vg, c, kw):
+    """the schema-valid keywords of class c with exactly one violation in a member that c declares ITSELF (not inherited):
+    a required own member left out, or an own pattern/enumeration facet violated"""
+    own = set(m["name"] for m in vg.C[c]["mspecs"])
+    info = {e["name"]: e for e in vg.members(c)}
+    out = []
+    for n in sorted(own):
+        e = info.get(n)
+        if e and e["required"] and n in [k for k, _ in kw]:
+            out.append(("own-required-missing:" + n, [x for x in kw if x[0] != n]))
+            break
+    for n in sorted(own):
+        e = info.get(n)
+        if e and e["attr"] and e["kind"] == "str" and vg.bad_value(e["st"]):
+            out.append(("own-facet:" + n, [x for x in kw if x[0] != n] + [[n, vg.bad_value(e["st"])]]))
+            break
+    return out
+
+
+QUICK_PAIRS = [("Input", "InputW"), ("ChannelDensity", "ChannelDensityVShift"), ("IonChannel", "IonChannelVShift"), ("IafCell", "IafRefCell"),
+               ("IafTauCell", "IafTauRefCell"), ("SpikeGeneratorPoisson", "SpikeGeneratorRefPoisson"),
+               ("ElectricalConnectionInstance", "ElectricalConnectionInstanceW"), ("ContinuousConnectionInstance", "ContinuousConnectionInstanceW"),
+               ("DecayingPoolConcentrationModel", "ConcentrationModel_D"), ("Cell", "Cell2CaPools"), ("Standalone", "IafCell"), ("Base", "Q10Settings")]
+
+
+def pair_sessions(ck, tab, T, mir, exhaustive):
+    """(ancestor P, derived D) pairs of the tables: a P is validated first, then a D with one violation in an OWN member of D must
+    be refused (and the reverse order); each session runs in a process of its own, so only the order inside it matters"""
+    vg = ValidGen(tab, T, ck.rng)
+    pairs = [(p, d) for d in T.order for p in T.chain(d)[1:]]
+    if not exhaustive:
+        fixed = [x for x in QUICK_PAIRS if x in pairs]
+        rest = sorted(x for x in pairs if x not in fixed)
+        pairs = fixed + rest[::max(1, len(rest) // 10)][:10]
+    sessions = []
+    for p, d in pairs:
+        pk = vg.kwargs(p, optional=0.0)
+        dk = vg.kwargs(d, optional=0.0)
+        for label, bad_kw in violate_own(vg, d, dk):
+            fp = {"op": "factory", "cls": p, "kw": pk, "validate": True, "form": "str", "via": "classmethod", "kind": "valid", "key": None}
+            fd = {"op": "factory", "cls": d, "kw": bad_kw, "validate": True, "form": "class", "via": "classmethod", "kind": "own-violation",
+                  "key": label, "after": p}
+            sessions.append({"isolate": True, "pair": [p, d], "ops": [{"op": "enable"}, dict(fp), dict(fd)]})
+            sessions.append({"isolate": True, "pair": [p, d], "ops": [{"op": "enable"}, {"op": "validate", "cls": p, "kw": pk}, dict(fd, via="utils", form="str")]})
+            sessions.append({"isolate": True, "pair": [p, d], "ops": [{"op": "enable"}, dict(fd, after=None), dict(fp), dict(fd)]})
+    ck.extra["ancestor_derived_pairs"] = len(pairs)
+    return sessions
+
+
 def misspell(rng, mir, c):
     names = [m["name"] for m in mir.members(c)] or ["id"]
     allowed = set(names) | set(supergen.TECHNICAL)
@@ -244,6 +302,9 @@ def evaluate(ck, sessions, results, initial):
                 ck.witness("C09:switch-state", "after %s the switch is %s / get_build_time_validation() says %s, expected %s"
                            % (op["op"], r.get("switch"), r.get("getter"), enabled), input={"ops": sess["ops"][:sess["ops"].index(op) + 1]})
                 enabled = r.get("switch")
+            if op["op"] == "validate":
+                ck.tally("op:validate-directly")
+                continue
             if op["op"] != "factory":
                 ck.tally("op:switch")
                 continue
@@ -252,6 +313,9 @@ def evaluate(ck, sessions, results, initial):
             code = r["code"][0]
             inp = {"class": c, "kwargs": op["kw"], "switch": enabled, "validate": op["validate"], "form": op["form"], "via": op["via"],
                    "kind": kind, "key": key}
+            if sess.get("pair"):
+                inp["earlier_in_this_process"] = [{k_: o_.get(k_) for k_ in ("op", "cls", "kw", "validate")} for o_ in sess["ops"][:sess["ops"].index(op)]]
+                ck.tally("pair:%s:%s" % (kind, "derived-after-ancestor" if op.get("after") else "first"))
             ck.count(1, nontrivial_key=json.dumps([c, kind, enabled, op["validate"], op["form"]]),
                      sample={"class": c, "kind": kind, "switch": enabled, "validate": op["validate"], "outcome": r["code"],
                              "explicit_validate": r.get("ret_valid")} if len(ck.samples) < 6 and kind in ("facet", "typo") else None)
@@ -283,7 +347,9 @@ def evaluate(ck, sessions, results, initial):
                 if on:
                     if code == 0 and not r.get("ret_valid"):
                         bad("C09:invalid-component-handed-back", "validation is on, the factory returned a %s that an explicit validate() "
-                            "rejects (%s)" % (c, r.get("ret_validate_exc")), expected="ValueError or a valid component")
+                            "%s rejects%s" % (c, "in a fresh process" if r.get("ret_valid_in_process") else "(%s)" % r.get("ret_validate_exc"),
+                                              " (%s; a %s was validated earlier in the process)" % (key, op["after"]) if op.get("after") else ""),
+                            expected="ValueError or a valid component")
                     if code != 0 and r.get("exc_type") != "ValueError":
                         bad("C09:raises-other-than-ValueError", "validation is on and the factory raises %s" % r.get("exc"))
                     if "direct" in r and (code == 0) != bool(r.get("vchild")):
@@ -392,6 +458,7 @@ def run(ck):
         ck.oblige("Props_C09.v", False, "instance obligations failed", kind="theorem")
     thorough = ck.tier == "thorough"
     sessions = make_sessions(ck, tab, T, mir, list(T.order), thorough)
+    sessions = sessions[:1] + pair_sessions(ck, tab, T, mir, thorough) + sessions[1:]
     order = {c: T.field_order(c) for c in T.order}
     chunk = 25
     parts = [sessions[i:i + chunk] for i in range(0, len(sessions), chunk)]
@@ -400,9 +467,10 @@ def run(ck):
         return ck.impl("c09_impl.py", {"order": order, "sessions": part}, timeout=1500)
     results, initial = [], True
     with ThreadPoolExecutor(max_workers=6) as ex:
-        for out in ex.map(one, parts):
+        for part, out in zip(parts, ex.map(one, parts)):
             results.extend(out["results"])
             initial = out["initial"]
+            c10.check_class_attrs(ck, out.get("new_class_attrs") or {}, {"first_session": part[0]["ops"][:3] if part else None})
     if initial is not True:
         ck.witness("C09:default-switch-off", "build-time validation is not enabled by default", input={})
     evaluate(ck, sessions, results, initial)
@@ -426,7 +494,15 @@ def replay(ck, data):
     if "class" in inp and "kwargs" in inp:
         op = {"op": "factory", "cls": inp["class"], "kw": inp["kwargs"], "validate": inp.get("validate", True), "form": inp.get("form", "str"),
               "via": inp.get("via", "classmethod"), "kind": inp.get("kind", "valid"), "key": inp.get("key")}
-        sess = {"ops": [{"op": "enable" if inp.get("switch", True) else "disable"}, op]}
+        earlier = []
+        for o_ in inp.get("earlier_in_this_process") or []:
+            if o_.get("op") == "factory":
+                earlier.append({"op": "factory", "cls": o_["cls"], "kw": o_["kw"], "validate": o_.get("validate", True), "form": "str",
+                                "via": "classmethod", "kind": "valid", "key": None})
+            elif o_.get("op") == "validate":
+                earlier.append({"op": "validate", "cls": o_["cls"], "kw": o_["kw"]})
+        sess = {"isolate": True, "pair": [None, inp["class"]] if earlier else None,
+                "ops": [{"op": "enable" if inp.get("switch", True) else "disable"}] + earlier + [op]}
         out = ck.impl("c09_impl.py", {"order": order, "sessions": [sess]}, timeout=600)
         evaluate(ck, [sess], out["results"], out["initial"])
         print(json.dumps({"input": inp, "implementation": out["results"][0][-1], "model_disagreements": ck.disagreements[:3],
